@@ -271,6 +271,10 @@ CHECKS["C16"] = dict(
 def _c06_stages(tier):
     st = [dict(variant="vh", cmd="c06", shards=8, timeout=3000),
           dict(variant="vh-race", cmd="c06", shards=8, timeout=3000, race=True, args=["-scale", "0.5"])]
+    if tier == "thorough":
+        # AddressSanitizer build as a cheap extra (reports are process-fatal: a dying child is a violation)
+        st.append(dict(variant="vh-asan", cmd="c06", shards=4, timeout=3000, args=["-scale", "0.1"], crash_is_violation=True,
+                       crash_desc="the AddressSanitizer build of the harness died during concurrent logging"))
     return st
 
 
@@ -333,8 +337,12 @@ CHECKS["C05"] = dict(
 
 def _diode_stages(cmd):
     def f(tier):
-        return [dict(variant="vh", cmd=cmd, shards=16, timeout=3400),
-                dict(variant="vh-race", cmd=cmd, shards=8, timeout=3400, race=True)]
+        st = [dict(variant="vh", cmd=cmd, shards=16, timeout=3400),
+              dict(variant="vh-race", cmd=cmd, shards=8, timeout=3400, race=True)]
+        if tier == "thorough" and cmd == "c10":
+            st.append(dict(variant="vh-asan", cmd=cmd, shards=4, timeout=3400, args=["-scale", "0.05"], crash_is_violation=True,
+                           crash_desc="the AddressSanitizer build of the harness died while exercising the diode"))
+        return st
     return f
 
 
@@ -382,7 +390,8 @@ CHECKS["C12"] = dict(
                 "Close, either the consumer passes the last claimed ring position, or a stable blocked state is observed: the consumer goroutine parked "
                 "in sync.Cond.Wait (from runtime.Stack), or >= 1000 empty polling steps without progress in poller mode, while claimed positions remain "
                 "- that is the violation; Close must return (else Close parked on done with the consumer parked). Wall-clock limits only produce "
-                "'inconclusive'. The lost wake-up of Waiter.Set (broadcast without the mutex) is a recorded known finding; every other stall raises."),
+                "'inconclusive'. (The lost wake-up of the original condition-variable Waiter was first a known finding and is now repaired by fix 5e93c03; "
+                "its signature is no longer suppressed.)"),
     technique="runtime monitoring: goroutine wait-state oracle + hook counters for bounded progress, directed lost-wake-up / cancel / hole scenarios",
     stages=_diode_stages("c12"),
     rule=("one case = one diode run judged at quiescence and again at Close; non-trivial as for C10; distinct_nontrivial = distinct event-sequence hashes"),
